@@ -68,7 +68,11 @@ def diag_of(effect):
                 rels.append(range_label(rv.fields[0].val))
             else:
                 rels.append(lab(rv))
-    return {"kind": kind, "range": range_label(rng), "related": rels, "where": effect[3]}
+    ctx = deref_val(out.get("context_message"))
+    ctxs = None
+    if isinstance(ctx, AdtVal) and ctx.variant is not None:
+        ctxs = lab(ctx.fields[0].val) if 0 in ctx.fields else "None"
+    return {"kind": kind, "range": range_label(rng), "related": rels, "where": effect[3], "context": ctxs, "message": lab(out.get("message"))}
 
 
 def range_label(v):
